@@ -28,6 +28,7 @@ THEOREMS = [
     "FaxVerif.C04.and_lazy2",
     "FaxVerif.C04.ite_lazy",
     "FaxVerif.C04.guarded_second",
+    "FaxVerif.C04.event_first_empty_loud",
 ]
 RULE = (
     "type-directed random queries that contain at least one of First / and / or / if-else / nested Where (rejection sampling over "
@@ -42,7 +43,9 @@ TRUSTED_BASE = [
 ASSUMPTIONS = ["null links and the poisoned-null oracle of the DESIGN are not exercised: isNonnull is injected C++ (opaque to the model); C11 covers its substitution"]
 LEVEL_TEXT = (
     "Lean 4 theorems about the emitted shapes, for all element lists, conditions and states: First() captures exactly the first kept "
-    "element and fails loudly iff the sequence is empty after its filters (first_idiom); the lowering of and / fused Where evaluates "
+    "element and fails loudly iff the sequence is empty after its filters (first_idiom; END TO END for the translator model on "
+    "event-level rows: event_first_empty_loud — the whole emitted package fails loudly, from any admissible class state, on an "
+    "event where a First() column's chain keeps no element, and nothing after it runs); the lowering of and / fused Where evaluates "
     "a later operand only when the earlier ones are true (and_lazy, lazy_skips_fault); code behind a rejecting Where is not executed "
     "(where_shields); pure expressions fault exactly when the query does (pure_faults_equal); `a or b`, `a and b` and "
     "`x if c else y` inside expressions, lowered to `r = a; if (!r) {…}` / `r = a; if (r) {…}` / `if (c) {…} else {…}`, run the "
